@@ -85,6 +85,20 @@ pub fn shapes() -> Vec<Shape> {
     sh("C20", "sindex", vec![Int(1900, 2100), Int(0, 9), Int(-40, 40)]),
     sh("C20", "lindex", vec![Int(1, 9998), Int(0, 12), Int(-30, 30)]),
     sh("C20", "holiday", vec![Int(0, 820), Int(-830, 830)]),
+    // route equivalence (routes.rs)
+    sh("C02", "routes", vec![Int(60, d - 60)]),
+    sh("C06", "routes", vec![Int(60, d - 60)]),
+    sh("C07", "routes", vec![Int(60, d - 60)]),
+    sh("C08", "routes", vec![Int(60, d - 60)]),
+    sh("C15", "routes", vec![Int(60, d - 60)]),
+    sh("C17", "routes", vec![Int(60, d - 60)]),
+    sh("C18", "routes", vec![Int(60, d - 60)]),
+    sh("C19", "routes", vec![Int(60, d - 60)]),
+    sh("C20", "routes", vec![Int(60, d - 60)]),
+    sh("C08", "hroutes", vec![Int(60, d - 60), Int(2, 22)]),
+    sh("C09", "hroutes", vec![Int(60, d - 60), Int(2, 22)]),
+    sh("C17", "hroutes", vec![Int(60, d - 60), Int(2, 22)]),
+    sh("C18", "hroutes", vec![Int(60, d - 60), Int(2, 22)]),
   ]
 }
 
